@@ -707,6 +707,23 @@ pub fn run(ctx: &Ctx) -> i32 {
             schedule_check(src, pair_limit, single_limit, &mut rep);
         }
         leak_check_batch(chunks[s], &mut rep);
+        // the same programs observed WITHOUT forcing their parts (pending thunks of every kind
+        // stay in the heap when the results are dropped) and inside failing evaluations
+        let mut lazy_views: Vec<String> = Vec::new();
+        for src in chunks[s] {
+            for w in [
+                "std.type(@)",
+                "std.length(std.objectValuesAll(@))",
+                "std.length(std.mapWithKey(function(k, v) v, @))",
+                "std.length(std.map(function(x) x, @))",
+                "[std.type(@), error \"stop\"]",
+                "local v = @; std.length([v, v, function() v])",
+                "std.objectFields(@ + {zz+: [1]})",
+            ] {
+                lazy_views.push(w.replace('@', &format!("({src})")));
+            }
+        }
+        leak_check_batch(&lazy_views, &mut rep);
         rep
     });
     total.extra.insert("programs_scheduled".into(), json!(sources.len()));
